@@ -20,13 +20,14 @@ use std::io::{Read, Seek, SeekFrom, Write};
 /// as [`std::fs::File`], [`std::io::BufReader`], sockets, etc.) into a source
 /// or destination of words.
 ///
-/// Due to the necessity of managing files whose length is not a multiple of the
-/// word length, [`read_word`](WordAdapter::read_word) will return a partially
-/// read word extended with zeros at the end of such files.
-///
-/// To provide a sensible value after such a read,
+/// At the end of a file whose length is not a multiple of the word length
+/// [`read_word`](WordAdapter::read_word) fails on the trailing partial word
+/// (such files should be padded with zeros). The failed read leaves the
+/// underlying [`Seek`] at its (unaligned) end, but no word has been delivered:
+/// to provide a sensible value after such a read,
 /// [`word_pos`](WordAdapter::word_pos) will always return the position
-/// of the underlying [`Seek`] rounded up to the next multiple of `W::Bytes`.
+/// of the underlying [`Seek`] rounded down to a multiple of `W::Bytes`, that
+/// is, the number of whole words preceding it.
 /// This approach, however, requires that if you adapt a [`Seek`], its current position must be
 /// a multiple of `W::Bytes`, or the results of [`word_pos`](WordAdapter::word_pos)
 /// will be shifted by the rounding.
@@ -103,7 +104,7 @@ impl<W: UnsignedInt + ToBytes + FromBytes + FiniteRangeNumber, B: Seek> WordSeek
 
     #[inline(always)]
     fn word_pos(&mut self) -> Result<u64, std::io::Error> {
-        Ok(self.backend.stream_position()?.div_ceil(W::BYTES as u64))
+        Ok(self.backend.stream_position()? / W::BYTES as u64)
     }
 
     #[inline(always)]
